@@ -25,7 +25,11 @@ CFG = dict(
                  "randomBlockGenerator's start index per (pool, node) and the Go map order of ReleaseByHandle are inputs",
                  "blocks claimed less than one minute ago are never reclaimed (EmptyBlockMinReclaimAge)",
                  "selectors restricted to conjunctions of ==, !=, has(), !has() atoms (selector semantics itself is C06/C07)",
-                 "cidrSliceFilter.MatchesWholeCIDR modelled by its meaning (every address of the block reserved)"],
+                 "cidrSliceFilter.MatchesWholeCIDR modelled by its meaning (every address of the block reserved)",
+                 "two variants of the code are modelled and selected per run by probes of the tree under test (flags g_fx, g_capfix in "
+                 "every case): claimAffineBlock with/without fixes/C22-claim-existing-block-bumps-revision.patch, and the block limit "
+                 "counting the usable pools' blocks (pinned) or all blocks affine to the host (fixes/C20-count-all-affine-blocks.patch); "
+                 "all run theorems are stated for every configuration, hence both variants"],
 )
 
 def classify(line):
